@@ -4,7 +4,7 @@ From TF Require Import Word BFieldGen BField XField.
 Extraction Language OCaml.
 Extraction "../ocaml/gen_c01/model.ml"
   P bfe_new bfe_value bfe_add bfe_sub bfe_mul bfe_neg bfe_zero bfe_one
-  mod_pow inverse inverse_or_zero div bfe_batch_inversion primitive_root_of_unity
+  mod_pow inverse inverse_or_zero bfe_div bfe_batch_inversion primitive_root_of_unity
   from_u128 from_i64 bfe_to_i64 try_into_unsigned try_into_signed
   bfe_new_ok bfe_value_ok bfe_add_ok bfe_sub_ok bfe_mul_ok mod_reduce_ok from_i64_u128_ok bfe_to_i64_ok
   xadd xsub xneg xmul xscale xaddb baddx xsubb bsubx xpow xinverse xinverse_or_zero xdiv
